@@ -5,8 +5,24 @@ print('|---|---|---|---|---|')
 for d in sorted(glob.glob('/verif/seeded/*')):
     try: m=json.load(open(d+'/meta.json'))
     except Exception: continue
+    if m.get('kind')=='harmless-refactoring': continue
     log=open(d+'/detect.log').read() if os.path.exists(d+'/detect.log') else ''
     v=len(re.findall(r'^VIOLATION',log,re.M)); nf=len(re.findall(r'no-failing-input-found',log))
     det='not run' if not log else ('caught: %d VIOLATION%s'%(v,' (correspondence break, no failing input found)' if nf==v else ' with failing input') if v else 'MISSED')
     c=m.get('confirmed_by_coordinator',{})
     print('| %s | %s | %s | %s | %s |'%(os.path.basename(d), m.get('summary','')[:220].replace('|','/').replace('\n',' '), m.get('needs','')[:200].replace('|','/').replace('\n',' '), 'yes' if c.get('ok') else ('pending' if not c else 'see meta.json'), det))
+
+print()
+print('Behaviour-preserving refactorings (fresh sub-agents; whole suite passes; expected outcome: NO violation):')
+print()
+print('| refactoring | files | quick checks run against it |')
+print('|---|---|---|')
+for d in sorted(glob.glob('/verif/seeded/R*')):
+    try: m=json.load(open(d+'/meta.json'))
+    except Exception: continue
+    log=open(d+'/detect.log').read() if os.path.exists(d+'/detect.log') else ''
+    res=[]
+    for mm in re.finditer(r'== ./check (C\d\d) quick.*?== exit (\d+)',log,re.S):
+        seg=mm.group(0); v=len(re.findall(r'^VIOLATION',seg,re.M)); nf=len(re.findall(r'no-failing-input-found',seg))
+        res.append('%s: %s'%(mm.group(1),'green' if mm.group(2)=='0' else ('%d VIOLATION%s'%(v,' (all no-failing-input-found: textual pins)' if nf==v else ''))))
+    print('| %s | %s | %s |'%(os.path.basename(d), ', '.join(f.replace('src/','') for f in m.get('files_touched',[])), '; '.join(res)))
